@@ -56,8 +56,10 @@ impl Pool {
         if self.inner.used() == self.inner.capacity()
             && self.inner.capacity() < self.inner.maximum_capacity()
         {
+            // (a pool created with a minimum of 0 starts at capacity 0:
+            // doubling alone would never leave it)
             self.inner.grow_to(std::cmp::min(
-                self.inner.capacity() * 2,
+                std::cmp::max(self.inner.capacity() * 2, 1),
                 self.inner.maximum_capacity(),
             ));
             debug!(
@@ -687,6 +689,14 @@ mod tests {
         let _b1 = pool.checkout().expect("first checkout");
         let _b2 = pool.checkout().expect("second checkout triggers growth");
         let _b3 = pool.checkout().expect("third checkout");
+    }
+
+    #[test]
+    fn test_pool_grows_from_zero() {
+        let mut pool = Pool::with_capacity(0, 2, 64);
+        let _b1 = pool.checkout().expect("first checkout grows the pool");
+        let _b2 = pool.checkout().expect("second checkout");
+        assert!(pool.checkout().is_none(), "maximum reached");
     }
 
     // -----------------------------------------------------------------------
